@@ -394,13 +394,19 @@ def mon_c13(s):
                 continue  # processing was cut short (disconnect / end of session)
             if not is_mn:
                 return f"line {text!r} was withheld although it is not a SYS:MODELNAME reply"
-            probe_started = any(e["k"] == "Set" and e.get("attr") == "_keep_alive_pending" and e["val"] is True and e["th"] == "sender" for e in ev[prev + 1 : end])
+            # "a probe was started": the sender took a keep-alive marker off the queue (observable whatever the
+            # library calls its flag), or set the flag
+            probe_started = any(
+                (e["k"] == "Deq" and e["th"] == "sender" and "KEEP_ALIVE" in (e.get("marker") or ""))
+                or (e["k"] == "Set" and e.get("attr") == "_keep_alive_pending" and e["val"] is True and e["th"] == "sender")
+                for e in ev[prev + 1 : end]
+            )
             if not probe_started:
                 return f"MODELNAME reply {text!r} was withheld although no probe was started since the previous line was received"
     n = len(ev)
     # converse clause
     for i, e in enumerate(ev):
-        if e["k"] == "Set" and e.get("attr") == "_keep_alive_pending" and e["val"] is True and e["th"] == "sender":
+        if e["k"] == "Deq" and e["th"] == "sender" and "KEEP_ALIVE" in (e.get("marker") or ""):
             # find the Write of this probe
             j = i + 1
             quiet = True
